@@ -23,6 +23,13 @@ def queries():
             quick = radix in (2, 16)
             qs.append(Q('uintfmt_%s_r%d' % (ut, radix), 'C12_int.c', 'numeric.cpp', defs={'OP': 1, 'UT': ut, 'BITS': bits, 'RADIX': radix, 'UPPER': 0, 'DIGITS': dg(bits, radix)}, ub=True,
                         unwind=dg(bits, radix) + 3, tiers=('quick', 'thorough') if quick else ('thorough',), bound={'type': ut, 'radix': radix, 'values': 'all 2^%d' % bits}, timeout=900))
+    # (1b) non-power-of-two radices at full 32/64-bit width, positional (division-chain) statement of the same canonical form (-DCHAIN)
+    for ut, bits in (('u32', 32), ('u64', 64)):
+        for radix in (10, 3, 7, 36):
+            quick = False
+            d = dg(bits, radix)
+            qs.append(Q('uintfmt_%s_r%d_chain' % (ut, radix), 'C12_int.c', 'numeric.cpp', defs={'OP': 1, 'UT': ut, 'BITS': bits, 'RADIX': radix, 'UPPER': 0, 'DIGITS': d, 'CHAIN': 1}, ub=True,
+                        unwind=d + 3, tiers=('quick', 'thorough') if quick else ('thorough',), bound={'type': ut, 'radix': radix, 'values': 'all 2^%d' % bits, 'oracle': 'division chain'}, timeout=900))
     # (2) from_int / from_uint
     FT = [('short', 16, 1), ('ushort', 16, 0), ('int', 32, 1), ('uint', 32, 0), ('long', 64, 1), ('ulong', 64, 0), ('llong', 64, 1), ('ullong', 64, 0)]
     for ft, bits, sg in FT:
